@@ -16,7 +16,7 @@ import (
 	"verifsim/core"
 	"verifsim/kernel"
 	_ "verifsim/hook"
-	_ "verifsim/props/c13"
+	_ "verifsim/props/all"
 )
 
 type cmd struct {
@@ -183,6 +183,9 @@ func runRange(t *testing.T, p *core.Prop, c *cmd, o *out, journal *os.File, race
 			agg.Nontrivial++
 			digests[res.Digest] = struct{}{}
 			agg.Classes[res.Class]++
+			for _, c := range res.Classes {
+				agg.Classes[c]++
+			}
 			if samples < c.Samples && res.Verdict == core.OK {
 				samples++
 				v := runOne(t, p, p.Gen(seed, c.Tier), true, races)
